@@ -27,6 +27,14 @@ def check(run):
     for arity in (1, 2, 3):
         for before, during, after in ((1, 0, 2), (2, 1, 1), (1, 2, 2), (3, 0, 1)):
             scs.append(dict(arity=arity, before=before, during=during, after=after, err=True))
+    # callers that pass a nil function while / after somebody else's function runs: it must never be called, and they wait and share
+    for arity in (1, 2, 3):
+        for before, during, after in ((1, 1, 1), (1, 2, 0), (2, 0, 2), (1, 0, 1)):
+            scs.append(dict(arity=arity, before=before, during=during, after=after, nilf=True))
+    # ungated bursts: the races of the very first Do on a fresh value (windows of a few instructions, so many rounds)
+    for arity in (1, 2, 3):
+        scs.append(dict(arity=arity, burst=16, rounds=1500 if q else 20000))
+        scs.append(dict(arity=arity, burst=4, rounds=1500 if q else 20000))
     for i in range(5 if q else 40):     # many simultaneous callers
         scs.append(dict(arity=run.rng.choice([1, 2, 3]), before=run.rng.randint(5, 9), during=run.rng.randint(0, 4), after=run.rng.randint(0, 3)))
     # under the race detector: the effect written inside the action must be ordered before every caller's read
@@ -37,7 +45,7 @@ def check(run):
     elif rc != 0:
         raise Inconclusive("once driver failed rc=%d: %s" % (rc, err[-1500:]))
     segs = split_segments(evs, reset_key="ev", reset_val="reset")
-    validate(run, "once", "OnceAbsTrace", {}, segs, [], plans=[[s] for s in scs][:len(segs)])
+    validate(run, "once", "OnceAbsTrace", {}, segs, [], plans=[[s] for s in scs for _ in range(s.get("rounds", 1))][:len(segs)])
     parked = [e for s in segs for e in s if e.get("what") == "parked"]
     run.cov.update(scenarios=len(scs), exhaustive=False, distinct_nontrivial=distinct_count(segs, lambda s: len(s) > 4),
                    parked_checks=len(parked), parked_as_expected=sum(1 for e in parked if e["n"] >= e["want"]),
